@@ -1361,6 +1361,11 @@ class Process(StateMachine, persistence.Savable, metaclass=ProcessStateMachineMe
                 next_state = self.create_state(process_states.ProcessState.EXCEPTED, *sys.exc_info()[1:])
                 self._set_interrupt_action(None)
 
+            if self.has_terminated():
+                # The process was terminated while the step was suspended (e.g. failed by a scheduled callback that
+                # raised): a terminal state is final, so there is nothing left to transition to
+                return
+
             if self._interrupt_action is not None and not self._interrupt_action.cancelled():
                 self._interrupt_action.run(next_state)
             else:
